@@ -3,7 +3,7 @@
 
    Main results (all for an ARBITRARY `alnum : bytes -> bool`):
      format_line_comment_changes / format_compiler_directive_changes   "Some" really means changed
-     format_line_comment_idempotent          (needs valid UTF-8: see ..._refuted for the witness)
+     format_line_comment_idempotent          (valid UTF-8; since the repair of F40 also ..._any: every byte string)
      format_compiler_directive_idempotent    (every byte string)
      comment_tok_idem / comment_formatter_idem   the stage applied twice = applied once
    The UTF-8 hypothesis is the boolean `valid_utf8` of Model/Lexer.v.  It is used in exactly one
@@ -403,23 +403,11 @@ Section LineComment.
     rewrite <- Ety. rewrite (Hsep eq_refl Hne). reflexivity.
   Qed.
 
+  (* since the repair of F40 the separator test trims the lexer's blanks itself, so it is stable under that trim for EVERY
+     byte string (the UTF-8 hypothesis is kept in the statement for its callers, it is no longer used) *)
   Lemma valid_sep_stable comment : valid_utf8 comment = true -> sep_stable comment.
   Proof.
-    intros Hv Hsep Hne.
-    destruct (trim_ascii_end_spec comment) as [suf [Hc Hsuf]].
-    assert (Hblank : Forall (fun b => b <= 32) suf).
-    { apply Forall_forall. intros b Hb. rewrite forallb_forall in Hsuf. apply N.leb_le, is_ascii_ws_blank, Hsuf, Hb. }
-    assert (Htrim : trim_blank_end comment = trim_blank_end (trim_ascii_end comment)).
-    { rewrite Hc at 1. apply tbe_app_nil, tbe_ascii_blank, Hblank. }
-    assert (Hvc : valid_utf8 (trim_ascii_end comment) = true).
-    { rewrite Hc in Hv. apply valid_split in Hv; [apply Hv|].
-      destruct suf as [|a s]; [reflexivity|]. cbn [starts_cont]. inversion Hblank as [|? ? Ha _]. subst.
-      unfold is_cont. apply andb_false_iff. left. apply N.leb_gt. lia. }
-    pose proof Hsep as Hsep0. unfold comment_is_separator in Hsep.
-    apply andb_true_iff in Hsep. destruct Hsep as [_ Hace].
-    destruct (valid_repetition_trim _ Hvc Hace) as [E|E].
-    - exfalso. apply Hne. rewrite Htrim. exact E.
-    - rewrite Htrim, E. unfold comment_is_separator in *. rewrite trim_ascii_end_idem. exact Hsep0.
+    intros _ Hsep _. unfold comment_is_separator in *. rewrite tbe_idem. exact Hsep.
   Qed.
 
   Lemma valid_tail47 l : valid_utf8 (47 :: l) = true -> valid_utf8 l = true.
@@ -814,27 +802,22 @@ Example ex_stage :
   /\ comment_formatter al0 (comment_formatter al0 ex_tokens) = comment_formatter al0 ex_tokens.
 Proof. split; [vm_compute; reflexivity|apply comment_formatter_idem, ex_tokens_ok]. Qed.
 
-(* --- the encoding hypothesis is needed --- *)
-(* `//` + (C2 0B) x 5: ill-formed; the chunks C2 0B are "equal characters" for the separator test, the
-   final 0B is a blank for trim_blank_end only, and after the trim nine bytes are left: no separator. *)
+(* --- since the repair of F40 the encoding hypothesis is no longer needed --- *)
+(* `//` + (C2 0B) x 5 (ill-formed): before the repair the separator test trimmed ASCII whitespace only, the final 0B was a blank
+   for trim_blank_end alone, the first pass cut the last chunk in two and the second pass inserted a space.  Now both trims
+   are the same one and the rewriter is idempotent on every byte string. *)
 Definition bad_comment : bytes := [47; 47] ++ repeat_app 5 [194; 11].
 
-Example format_line_comment_idempotent_refuted :
-  exists alnum c c' c'',
-    valid_utf8 c = false /\ format_line_comment alnum c = Some c' /\ format_line_comment alnum c' = Some c''.
+Theorem format_line_comment_idempotent_any alnum c c' :
+  format_line_comment alnum c = Some c' -> format_line_comment alnum c' = None.
 Proof.
-  exists al0, bad_comment, ([47; 47] ++ repeat_app 4 [194; 11] ++ [194]),
-         ([47; 47; 32] ++ repeat_app 4 [194; 11] ++ [194]).
-  vm_compute. repeat split; reflexivity.
+  apply format_line_comment_idempotent_gen. intros P comment _ _ Hsep _.
+  unfold comment_is_separator in *. rewrite tbe_idem. exact Hsep.
 Qed.
 
-Example comment_formatter_idem_refuted :
-  exists alnum l, comment_formatter alnum (comment_formatter alnum l) <> comment_formatter alnum l.
-Proof.
-  exists al0, [(mkToken [] bad_comment (TT_Comment CoK_IndividualLine), ex_fmt false)].
-  intros H. apply (f_equal (map (fun p : ftoken => length (t_content (fst p))))) in H.
-  vm_compute in H. discriminate H.
-Qed.
+Example format_line_comment_former_witness :
+  exists c', format_line_comment al0 bad_comment = Some c' /\ format_line_comment al0 c' = None.
+Proof. eexists. split; vm_compute; reflexivity. Qed.
 
 Print Assumptions format_line_comment_idempotent.
 Print Assumptions format_line_comment_idempotent_gen.
@@ -844,5 +827,5 @@ Print Assumptions format_compiler_directive_changes.
 Print Assumptions comment_tok_idem.
 Print Assumptions comment_formatter_idem.
 Print Assumptions comment_formatter_idem_valid.
-Print Assumptions format_line_comment_idempotent_refuted.
-Print Assumptions comment_formatter_idem_refuted.
+Print Assumptions format_line_comment_idempotent_any.
+
